@@ -18,10 +18,13 @@ fn clamp_to_bounds(p: Point, height: i32, width: i32) -> Point {
 pub fn stroke_rect<T: Copy>(mut mask: NdTensorViewMut<T, 2>, rect: Rect, value: T, width: u32) {
     let width = width as i32;
 
+    // Each edge is clipped to `rect`, so that a border which is wider than the
+    // rect does not extend beyond it.
+
     // Left edge
     fill_rect(
         mask.view_mut(),
-        Rect::from_tlbr(rect.top(), rect.left(), rect.bottom(), rect.left() + width),
+        Rect::from_tlbr(rect.top(), rect.left(), rect.bottom(), rect.left() + width).clamp(rect),
         value,
     );
 
@@ -33,7 +36,8 @@ pub fn stroke_rect<T: Copy>(mut mask: NdTensorViewMut<T, 2>, rect: Rect, value: 
             rect.left() + width,
             rect.top() + width,
             rect.right() - width,
-        ),
+        )
+        .clamp(rect),
         value,
     );
 
@@ -45,7 +49,8 @@ pub fn stroke_rect<T: Copy>(mut mask: NdTensorViewMut<T, 2>, rect: Rect, value: 
             rect.right() - width,
             rect.bottom(),
             rect.right(),
-        ),
+        )
+        .clamp(rect),
         value,
     );
 
@@ -57,7 +62,8 @@ pub fn stroke_rect<T: Copy>(mut mask: NdTensorViewMut<T, 2>, rect: Rect, value: 
             rect.left() + width,
             rect.bottom(),
             rect.right() - width,
-        ),
+        )
+        .clamp(rect),
         value,
     );
 }
